@@ -5,6 +5,7 @@ Invariant at the SBlock.event boundary (independent busy counters), handler-leve
 counters and a follow-up probe after every external event.
 """
 
+import functools
 import sys
 
 from .. import core, harness, vloop
@@ -211,6 +212,8 @@ def gen(ctx):
         for i in range(nb):
             kind = rng.choice(KINDS)
             blocks.append({'name': f"b{i}", 'kind': kind, 'edges': [], 'opts': {}})
+            if rng.random() < 0.25:
+                blocks[-1]['debug'] = True      # debug messages enabled on this block
         for i, b in enumerate(blocks):
             if b['kind'] == 'repeat':
                 targets = [j for j, t in enumerate(blocks) if t['kind'] in ('probe', 'input', 'ofunc')]
@@ -238,7 +241,8 @@ def gen(ctx):
                        'counter': ['on_output', 'on_every'], 'fsm': ['on_enter_a', 'on_enter_b', 'on_output', 'on_exit_a', 'on_exit_b'],
                        'ofunc': ['on_success']}[b['kind']]
                 edge = {'to': j, 'via': rng.choice(via),
-                        'filter': rng.choice([None, None, None, 'pass', 'reject', 'alt']),
+                        'filter': rng.choice([None, None, None, 'pass', 'reject', 'alt', 'reject_obj',
+                                            'reject_partial']),
                         'cond': rng.choice([None, None, None, 'tn', 'nt', 'tt'])}
                 if blocks[j]['kind'] in ('input', 'counter', 'fsm') and rng.random() < 0.06:
                     # an event type the destination does not know: a harmless failure that is
@@ -361,6 +365,17 @@ def run_case(case, ctx):
             def flt(d):
                 ctx.count('filter_rejections')
                 return False
+        elif e['filter'] == 'reject_obj':
+            class Rejector:         # a callable object (like the filters of edzed.blocklib)
+                def __call__(self, d):
+                    ctx.count('filter_rejections')
+                    return False
+            flt = Rejector()
+        elif e['filter'] == 'reject_partial':
+            def rej(answer, d):
+                ctx.count('filter_rejections')
+                return answer
+            flt = functools.partial(rej, 0)     # any false non-mapping value rejects
         elif e['filter'] == 'alt':
             key = (b['name'], idx)
 
@@ -385,8 +400,9 @@ def run_case(case, ctx):
                 evs.setdefault(e['via'], []).append(mk_event(b, e, idx))
             k = b['kind']
             name = b['name']
+            dbg = {'debug': True} if b.get('debug') else {}
             if k == 'probe':
-                created[i] = Probe(name, x_fwd=evs.get('fwd', []), x_n=[0], x_fail=b['opts'].get('fail'))
+                created[i] = Probe(name, x_fwd=evs.get('fwd', []), x_n=[0], x_fail=b['opts'].get('fail'), **dbg)
             elif k == 'input':
                 kw = {'initdef': 0} if b['opts']['initdef'] else {}
                 if b['opts'].get('stored') is not None:
@@ -394,22 +410,22 @@ def run_case(case, ctx):
                     storage[f"<Input '{name}'>"] = b['opts']['stored']
                     ctx.count('restored_inputs')
                 created[i] = edzed.Input(name, on_output=evs.get('on_output'),
-                                         on_every_output=evs.get('on_every'), **kw)
+                                         on_every_output=evs.get('on_every'), **kw, **dbg)
             elif k == 'counter':
                 created[i] = edzed.Counter(name, on_output=evs.get('on_output'),
-                                           on_every_output=evs.get('on_every'))
+                                           on_every_output=evs.get('on_every'), **dbg)
             elif k == 'fsm':
                 created[i] = Toggle(name, on_enter_a=evs.get('on_enter_a'),
                                     on_enter_b=evs.get('on_enter_b'),
                                     on_exit_a=evs.get('on_exit_a'), on_exit_b=evs.get('on_exit_b'),
                                     on_output=evs.get('on_output'), x_chain=b['opts']['chain'],
-                                    x_exit_send=b['opts'].get('exit_send', 'none'))
+                                    x_exit_send=b['opts'].get('exit_send', 'none'), **dbg)
             elif k == 'repeat':
                 created[i] = edzed.Repeat(name, dest=blocks[b['opts']['dest']]['name'],
-                                          etype='put', interval=1000, count=0)
+                                          etype='put', interval=1000, count=0, **dbg)
             elif k == 'ofunc':
                 created[i] = edzed.OutputFunc(name, func=lambda v: v, on_success=evs.get('on_success'),
-                                              on_error=None)
+                                              on_error=None, **dbg)
         return created
 
     outcome = {'stims': [], 'init_failed': None}
